@@ -118,7 +118,7 @@ func c10Run(res *vlib.Result, ca, sa, ce, se security.SecurityLevel, sh c10Shape
 	if mustFail {
 		if cOK || sOK {
 			res.Violate(fmt.Sprintf("C10/succeeds-where-table-fails/%s/%s/%s", sh.name, cell, ecell), "%s: table says fail; client err=%s server err=%s", id, errStr(r.C.Err), errStr(r.S.Err))
-			res.Outcome("VIOLATION-should-fail")
+			res.Outcome("finding-should-fail")
 			return
 		}
 		// explicit denial rather than a bare close
@@ -126,7 +126,7 @@ func c10Run(res *vlib.Result, ca, sa, ce, se security.SecurityLevel, sh c10Shape
 		if isEOF(r.C.Err) || strings.Contains(e, "closed pipe") || strings.Contains(e, "closed connection") || strings.Contains(e, "stuck") {
 			if !(strings.Contains(e, "denied") || strings.Contains(e, "DENIED") || strings.Contains(e, "rejected") || strings.Contains(e, "methods failed") || strings.Contains(e, "incompatib") || strings.Contains(e, "no compatible")) {
 				res.Violate(fmt.Sprintf("C10/bare-close/%s/%s/%s", sh.name, cell, ecell), "%s: client got a bare close instead of an explicit denial: %s", id, e)
-				res.Outcome("VIOLATION-bare-close")
+				res.Outcome("finding-bare-close")
 				return
 			}
 		}
@@ -135,7 +135,7 @@ func c10Run(res *vlib.Result, ca, sa, ce, se security.SecurityLevel, sh c10Shape
 	}
 	if !cOK || !sOK {
 		res.Violate(fmt.Sprintf("C10/fails-where-table-succeeds/%s/%s/%s", sh.name, cell, ecell), "%s: table says succeed; client err=%s server err=%s", id, errStr(r.C.Err), errStr(r.S.Err))
-		res.Outcome("VIOLATION-should-succeed")
+		res.Outcome("finding-should-succeed")
 		return
 	}
 	cn, sn := r.C.Neg, r.S.Neg
